@@ -153,6 +153,20 @@ class Session:
                 self.ended_by = "eof"
                 return False
             return True
+        if kind == "flood":
+            # stop reading the control connection and send n commands whose replies exceed every buffer on the way back
+            n, width = st[1], st[2]
+            p.writer.transport.pause_reading()
+            line = ("X" * width + "\r\n").encode()
+            p.transcript.append(("C", f"{n} x unknown command of {width} chars, replies never read"))
+            for i in range(0, n, 200):
+                p.writer.write(line * min(200, n - i))
+                try:
+                    await asyncio.wait_for(p.writer.drain(), 5.0)
+                except (asyncio.TimeoutError, ConnectionError):
+                    break
+            self.outcomes.append(["FLOODED"])
+            return True
         if kind == "sleep":
             await asyncio.sleep(st[1])
             self.outcomes.append(["SLEPT"])
@@ -345,6 +359,7 @@ def corpus(prefix="", tree_has=("f.bin", "dir/g.txt")):
     S["retr_epsv_after"] = login + [["epsv"], ["xfer", "RETR", f"{P}/f.bin", None, "after"], ["quit"]]
     S["retr_rest"] = login + [["epsv"], ["cmd", "REST 12345"], ["xfer", "RETR", f"{P}/f.bin"], ["quit"]]
     S["stor_rest"] = login + [["epsv"], ["cmd", "REST 5"], ["xfer", "STOR", f"{P}/dir/g.txt", 3], ["quit"]]
+    S["stor_rest_missing"] = login + [["epsv"], ["cmd", "REST 5"], ["xfer", "STOR", f"{P}/missing.bin", 3], ["cmd", "PWD"], ["quit"]]
     S["retr_missing"] = login + [["epsv"], ["xfer", "RETR", f"{P}/missing"], ["cmd", "PWD"], ["quit"]]
     S["list"] = login + [["epsv"], ["xfer", "LIST", f"{P}"], ["quit"]]
     S["mlsd"] = login + [["pasv"], ["xfer", "MLSD", f"{P}"], ["quit"]]
@@ -369,6 +384,9 @@ def corpus(prefix="", tree_has=("f.bin", "dir/g.txt")):
                              ["xfer", "RETR", f"{P}/dir/g.txt"], ["quit"]]
     S["pipelined"] = login + [["pipeline", ["PASV", "EPSV", "PWD"]], ["xfer", "RETR", f"{P}/dir/g.txt"],
                               ["pipeline", [f"CWD {P}/dir", "PWD", "CDUP", "PWD"]], ["pipeline", ["EPSV", f"REST 3", f"MLST {P}/f.bin"]], ["quit"]]
+    S["pipelined_fs"] = login + [["pipeline", [f"MKD {P}/pp", "PWD", f"RMD {P}/pp", "SYST", f"MLST {P}/f.bin", "PWD", f"DELE {P}/nope", "NOOP"]],
+                                 ["pipeline", [f"RNFR {P}/dir/g.txt", f"RNTO {P}/dir/g2.txt", "PWD", f"SIZE {P}/f.bin"]], ["quit"]]
+    S["flood"] = login + [["flood", 3000, 90], ["sleep", 30.0]]
     S["relogin"] = login + [["cmd", f"CWD {P}/dir"], ["login"], ["cmd", "PWD"], ["quit"]]
     return S
 
